@@ -89,6 +89,36 @@ def rule_R15(ctx, rep, config="c-lib"):
         rep.ok("R15", "check_cached_transition_set/reads-dists[i]")
     else:
         rep.violation("R15", "check_cached_transition_set/reads-dists[i]", "the distance examined is not dists[i] of the cached set", where=f.where())
+    # what is compared: the origin *sets* (elements of the parser list), not a part of them
+    cmps = [i for i in f.all_insts() if i.op == "icmp" and i.block.name in body and i.d["pred"] in ("eq", "ne") and i.ty == "i1"
+            and not any(const_int(o) is not None or o.get("k") == "null" for o in i.ops)]
+    okc = None
+    for c in cmps:
+        kinds = []
+        for o in c.ops:
+            oi = f.inst(strip_casts(f, o))
+            if oi is None or oi.op != "load":
+                kinds.append("other")
+                continue
+            pa = resolve_addr(f, oi.ops[0])
+            base = loaded_from(f, pa.root[1]) if pa.root[0] == "val" else None
+            if base is not None and base.root == ("g", "pl") and not pa.fields():
+                kinds.append("set")
+            elif pa.last_field() and pa.last_field().startswith("set."):
+                kinds.append("part:" + pa.last_field())
+            else:
+                kinds.append("other")
+        if kinds == ["set", "set"]:
+            okc = True
+        elif all(k.startswith("part:") for k in kinds):
+            okc = kinds
+    if okc is True:
+        rep.ok("R15", "check_cached_transition_set/compares-sets")
+    elif okc:
+        rep.violation("R15", "check_cached_transition_set/compares-sets", "the cache validity test compares only %s of the origin sets: sets with the same core but other distances are "
+                      "taken for equal and a cached successor set is reused in the wrong context" % okc[0][5:], where=cmps[0].where(), witness=[cmps[0].where()])
+    else:
+        raise AnalysisBroken("check_cached_transition_set: the comparison of origin sets is not recognised")
     # a mismatch returns 0 from inside the loop; falling out of the loop returns non-zero
     from .r3 import returned_values
     rz = [(v, b) for (v, b, t) in returned_values(f) if const_int(v) == 0]
